@@ -150,6 +150,10 @@ type stmtGen struct {
 	nTr    int
 	nLoop  int
 	budget int
+	// collLocals: locals holding a whole collection (name -> "slice" | "map"); they may be
+	// undefined on some paths (reference: error)
+	collLocals map[string]string
+	collStored bool
 }
 
 var c02Locals = map[byte][]string{'i': {"a", "b", "c", "d"}, 's': {"s", "u"}, 'b': {"p", "q"}, 'f': {"x"}}
@@ -335,6 +339,70 @@ func (g *stmtGen) assignStmt() *dsl.Stmt {
 	return g.trace()
 }
 
+// collStmt: locals that hold a whole slice / map read from injected data, and stores of a
+// whole collection into a field. After `t = W.Sl; W.Sl = sl` the local t must still be the
+// old slice (a local binds the value, not the field it was read from).
+func (g *stmtGen) collStmt() *dsl.Stmt {
+	t := g.t
+	slSrc := []string{"W.Sl", "W.Sl", "sl"}
+	mSrc := []string{"W.M", "W.M", "m"}
+	// steer towards the sequence bind -> whole-collection store -> use of the local
+	ck := uni(t, g.lbl("collkind"), 0, 4)
+	switch {
+	case len(g.collLocals) == 0:
+		ck = uni(t, g.lbl("collbind"), 0, 1)
+	case !g.collStored && pct(t, g.lbl("collstore"), 60):
+		ck = uni(t, g.lbl("collstorekind"), 2, 3)
+		g.collStored = true
+	case g.collStored && pct(t, g.lbl("colluse"), 60):
+		ck = 4
+	}
+	switch ck {
+	case 0:
+		n := []string{"ls1", "ls2"}[uni(t, g.lbl("lsn"), 0, 1)]
+		g.collLocals[n] = "slice"
+		src := slSrc[uni(t, g.lbl("lss"), 0, 2)]
+		for k, kind := range g.collLocals {
+			if kind == "slice" && k != n && pct(t, g.lbl("fromlocal"), 25) {
+				src = k
+			}
+		}
+		return dsl.Assign(dsl.Var(n), "=", dsl.Var(src))
+	case 1:
+		n := "lm1"
+		g.collLocals[n] = "map"
+		return dsl.Assign(dsl.Var(n), "=", dsl.Var(mSrc[uni(t, g.lbl("lms"), 0, 2)]))
+	case 2: // whole-slice store into the field
+		src := "sl"
+		for k, kind := range g.collLocals {
+			if kind == "slice" && pct(t, g.lbl("fromlocal"), 60) {
+				src = k
+			}
+		}
+		return dsl.Assign(dsl.Var("W.Sl"), "=", dsl.Var(src))
+	case 3: // whole-map store into the field
+		src := "m"
+		for k, kind := range g.collLocals {
+			if kind == "map" && pct(t, g.lbl("fromlocal"), 60) {
+				src = k
+			}
+		}
+		return dsl.Assign(dsl.Var("W.M"), "=", dsl.Var(src))
+	}
+	// read an element of a collection local into an int local / report it
+	for k, kind := range g.collLocals {
+		if kind == "slice" {
+			g.def["a"] = true
+			return dsl.Assign(dsl.Var("a"), "=", dsl.Index(k, g.intKey(3)))
+		}
+		if kind == "map" {
+			g.def["a"] = true
+			return dsl.Assign(dsl.Var("a"), "=", dsl.Index(k, g.strKey()))
+		}
+	}
+	return g.trace()
+}
+
 func (g *stmtGen) cond() *dsl.Expr {
 	// conditions are often true so that several branches of a chain are simultaneously true
 	switch uni(g.t, g.lbl("ckind"), 0, 4) {
@@ -407,6 +475,9 @@ func (g *stmtGen) stmt(depth int, inLoop bool) *dsl.Stmt {
 	if depth >= 3 && k >= 10 && k <= 16 {
 		k = 0
 	}
+	if k <= 7 && pct(t, g.lbl("coll_local"), 14) {
+		return g.collStmt()
+	}
 	switch {
 	case k <= 7:
 		return g.assignStmt()
@@ -463,6 +534,13 @@ func (g *stmtGen) stmt(depth int, inLoop bool) *dsl.Stmt {
 			name string
 			str  bool
 		}{{"sl", false}, {"W.Sl", false}, {"W.Arr", false}, {"m", true}, {"W.M", true}, {"mi", false}}
+		for k, kind := range g.collLocals {
+			colls = append(colls, struct {
+				name string
+				str  bool
+			}{k, kind == "map"})
+		}
+		sort.Slice(colls, func(i, j int) bool { return colls[i].name < colls[j].name })
 		cl := colls[uni(t, g.lbl("coll"), 0, len(colls)-1)]
 		s := &dsl.Stmt{K: dsl.SForRange, LoopID: id, KeyVar: v, Coll: cl.name}
 		if cl.str {
@@ -629,7 +707,7 @@ func init() {
 		New:  func() interface{} { return &C02Case{} },
 		Gen: func(t *rapid.T) interface{} {
 			c := &C02Case{World: genStmtWorld(t)}
-			g := &stmtGen{t: t, def: map[string]bool{}, maybe: map[string]bool{}, budget: 30}
+			g := &stmtGen{t: t, def: map[string]bool{}, maybe: map[string]bool{}, budget: 30, collLocals: map[string]string{}}
 			g.eg = &exprGen{t: t, locals: map[byte][]string{}, faultAt: -1, parenP: 5}
 			g.eg.custom = g.atom
 			r := &dsl.Rule{Name: "prog", HasSal: true, Sal: 1}
@@ -645,6 +723,18 @@ func init() {
 		Check: func(ci interface{}, x *Ctx) {
 			c := ci.(*C02Case)
 			text, _ := dsl.PrintRules([]*dsl.Rule{c.Rule}, c.Lay)
+			// dry run of the reference on a third copy of the world: programs that exceed the
+			// step or string-size budget (e.g. a string doubled in nested loops) are skipped
+			// before gengine is asked to run them
+			{
+				do := &stmtObserver{log: &obs.Log{}}
+				denv := ref.NewEnv(c.World.inject(do), c.Rule)
+				dres := denv.Run()
+				if denv.Unspecified == "step budget" || (dres.Err != nil && dres.Err.Class == "budget") {
+					x.Class("skipped-over-budget")
+					return
+				}
+			}
 			eo := &stmtObserver{log: &obs.Log{}}
 			einj := c.World.inject(eo)
 			rb, err := buildDSL(text, einj)
@@ -664,6 +754,10 @@ func init() {
 			want := env.Run()
 			if env.Unspecified != "" {
 				x.Class("skipped-unspecified:" + env.Unspecified)
+				return
+			}
+			if want.Err != nil && want.Err.Class == "budget" {
+				x.Class("skipped-over-budget")
 				return
 			}
 			if env.MayErr {
